@@ -3,7 +3,7 @@
    the ghost-knot repair, SplineObject.insert_knot, refine).  Reference: Spec/Boehm.v. *)
 From Coq Require Import List Arith Reals Lra Lia Bool ZArith QArith Qreals Permutation.
 From SplipyModel Require Import Spec.BSpline Spec.Boehm Model.Num Model.BasisDef Model.BasisEval Model.Tensor Model.Obj
-  Model.KnotInsert Proofs.TensorLemmas Proofs.InsertMatrix Proofs.TensorApply Proofs.InsertObj
+  Model.KnotInsert Proofs.TensorLemmas Proofs.InsertMatrix Proofs.TensorApply Proofs.InsertObj Proofs.ObjEval Proofs.SnapChar Proofs.InsertEndToEnd Proofs.OrderProofs Proofs.RaiseNested
   Transfer.ParamBase Transfer.ParamObj Transfer.ParamInsert Extract.Exec.
 Import ListNotations.
 Open Scope R_scope.
@@ -85,6 +85,47 @@ Theorem C04_executed_is_proved (o : obj Q) d (xs : list Q) :
   resobjmap (q_obj_insert_knots o d xs) = @obj_insert_knots R NumR (objQ2R o) d (map Q2R xs).
 Proof. exact (obj_insert_knots_transfer o d xs). Qed.
 Print Assumptions C04_executed_is_proved.
+
+(* 6b. END TO END on the model's own functions (the two that the correspondence run compares with
+       SplineObject.insert_knot and SplineObject.evaluate): for every well-formed object (any pardim, rational or not;
+       the other directions may be periodic), every non-periodic direction d, every x in [start_d, end_d) and every
+       parameter tuple of the domain whose d-th entry is not within twice the snapping tolerance of x,
+       insertion succeeds and evaluation of the result equals evaluation of the original.  (Within the tolerance the
+       implementation snaps the parameter onto the new knot: the evaluated parameter itself changes.) *)
+Theorem C04_insert_then_evaluate tol (o : obj R) d x ts :
+  0 < tol -> wf_obj_R tol o -> (d < length (o_bases o))%nat ->
+  let bd := nth d (o_bases o) dflt_basis in
+  b_per1 bd = 0%nat -> @b_start R NumR bd <= x < @b_end R NumR bd ->
+  (forall i, (i < length (o_bases o))%nat -> in_dom tol (nth i (o_bases o) dflt_basis) (nth i ts 0)) ->
+  2 * tol <= Rabs (x - nth d ts 0) ->
+  exists o', @obj_insert_knots R NumR o d [x] = Ok o' /\ @obj_eval R NumR tol o' ts = @obj_eval R NumR tol o ts.
+Proof. exact (insert_knot_eval_far tol o d x ts). Qed.
+Print Assumptions C04_insert_then_evaluate.
+
+Example C04_wf_example :
+  let b := @mkBasis R 3 [0; 0; 0; 1; 2; 2; 2] 0 in
+  let o := @mkObj R [b] [[0; 1]; [1; 3]; [2; 0]; [4; 1]] 2 false in
+  wf_obj_R (1/1000) o /\ @b_start R NumR b <= 1/2 < @b_end R NumR b.
+Proof.
+  cbv zeta. split; [split; [|split]|].
+  - constructor; [|constructor]. split; [|split; [|split; [|split]]].
+    + apply Proofs.RaiseNested.sorted_kn_lsorted. repeat (constructor; try lra).
+    + cbn; lia.
+    + cbn; lia.
+    + cbn; lia.
+    + unfold b_end, b_start, kn. cbn. lra.
+  - repeat constructor.
+  - reflexivity.
+  - unfold b_end, b_start, kn. cbn. lra.
+Qed.
+
+(* 6c. snap() depends on the knot vector only through its values, and is unchanged by the insertion of a knot for
+       every parameter that is not within the tolerance of the new knot *)
+Theorem C04_snap_after_insertion (k k2 : list R) x tol t :
+  sorted (@kn R NumR k) -> sorted (@kn R NumR k2) -> (forall v, In v k2 <-> (In v k \/ v = x)) -> 0 < tol ->
+  tol <= Rabs (x - t) -> @snap1 R NumR k2 tol t = @snap1 R NumR k tol t.
+Proof. exact (snap1_insert_far k k2 x tol t). Qed.
+Print Assumptions C04_snap_after_insertion.
 
 (* 7. PARTIAL.  Periodic directions are covered by the transcription + correspondence only.  The
       faithful transcription of the ghost-knot repair changes the map when the periodic basis has fewer
